@@ -263,7 +263,8 @@ def one_case(ctx, rng, alpha, seen, i):
         check_string(ctx, model_encode(n, alpha), alpha, "overflow")
     elif r == 6 and i % 16 == 6:  # a valid short string with junk in front of / behind it
         s = model_encode(rng.getrandbits(128) if rng.random() < 0.7 else rng.getrandbits(60), alpha)
-        junk = rng.choice(["\n", " ", "\t", "\r\n", "\x00", "\n\n", "=", "\u2028", "\x0b", "\x1c"])
+        # (... or the byte order mark a text file saved 'with signature' starts with)
+        junk = rng.choice(["\n", " ", "\t", "\r\n", "\x00", "\n\n", "=", "\u2028", "\x0b", "\x1c", "\ufeff", "\ufeff"])
         where = rng.random()
         s = s + junk if where < 0.5 else junk + s if where < 0.8 else s[:-1] + junk[:1]
         check_string(ctx, s, alpha, "junk_around_valid")
@@ -318,6 +319,19 @@ def one_case(ctx, rng, alpha, seen, i):
             canon = list(str(uuid.UUID(int=rng.getrandbits(128))))
             pos = rng.randrange(len(canon))
             canon[pos] = rng.choice("gG zZ-_" + alpha)
+            r2 = rng.random()
+            if r2 < 0.12:
+                # an intact canonical string behind a byte order mark
+                canon = ["\ufeff"] + list(str(uuid.UUID(int=rng.getrandbits(128))))
+            elif r2 < 0.3:
+                # two letters of an intact one written as ONE character (the ligatures of a word processor; the
+                # capital sharp s, the dotted capital i - characters whose lower / folded form is two characters)
+                u = uuid.UUID(int=rng.getrandbits(128) | (0xff << (8 * rng.randrange(15))))
+                text = str(u)
+                k = text.index("ff") if "ff" in text else None
+                if k is not None:
+                    canon = list(text[:k] + rng.choice(["\ufb00", "\ufb00", "\u1e9e", "\u0130"]) + text[k + 2:])
+                    ctx.count("canonical_strings_with_two_letters_written_as_one_character")
             if rng.random() < 0.15:
                 q = rng.choice(["\"", "'"])
                 canon = [q] + list(str(uuid.UUID(int=rng.getrandbits(128)))) + [q]     # an intact one, in quotes
